@@ -1,6 +1,6 @@
 (** C08/Corr.v — executable comparison of the real LuaPropertyIndex / LuaGlobalIndex / DiagnosticIndex
     (observations written by the harness after every op) with the models. *)
-From EV Require Import C08.SimpleModels C10.TypeModel.
+From EV Require Import C08.SimpleModels C10.TypeModel C08.MemberModel C08.RefModel.
 Local Open Scope N_scope.
 
 Inductive iop := IAdd (f : N) (facts : list (N * N * N)) | IRemove (f : N) | IClear.
@@ -108,11 +108,63 @@ Fixpoint check_t (s : tidx) (c : tcase) : bool :=
       && nl_eqb (t_sizes s') sizes && check_t s' r
   end.
 
-Inductive case := CP (c : pcase) | CG (c : gcase) | CD (c : dcase) | CT (c : tcase).
+(** ---- member index: per owner 0..3 (present, members as (key, file, pos) in any order, number of keys);
+        per (file 1..4, pos 0..5): (member exists, current owner) ---- *)
+Definition mowner_obs := (bool * list (N * (N * N)) * N)%type.
+Definition mcur_obs := (bool * option N)%type.
+Definition mcase := list (iop * (list mowner_obs * list mcur_obs * list N)).
+Definition kmp_eqb (a b : N * (N * N)) : bool := (fst a =? fst b) && pe (snd a) (snd b).
+Definition mcur_keys : list mid := flat_map (fun f => map (fun p => (f, p)) [0; 1; 2; 3; 4; 5]) [1; 2; 3; 4].
+Fixpoint check_m (s : mbidx) (c : mcase) : bool :=
+  match c with
+  | [] => true
+  | (o, (oobs, cobs, sizes)) :: r =>
+      let s' := match o with
+                | IAdd f facts => mb_add f facts s
+                | IRemove f => mb_remove f s
+                | IClear => mb_clear s
+                end in
+      all2 (fun t (x : mowner_obs) =>
+              match mb_members_of s' t with
+              | None => negb (fst (fst x)) && is_nil (snd (fst x))
+              | Some ms => fst (fst x) && Nat.eqb (length ms) (length (snd (fst x)))
+                           && forallb (fun m => existsb (kmp_eqb m) ms) (snd (fst x))
+              end && (mb_len s' t =? snd x)) (seq_from 0 (length oobs)) oobs
+      && all2 (fun m (x : mcur_obs) =>
+              Bool.eqb (match pget m (mb_members s') with Some _ => true | None => false end) (fst x)
+              && on_eqb (pget m (mb_cur s')) (snd x)) mcur_keys cobs
+      && nl_eqb (mb_sizes s') sizes && check_m s' r
+  end.
+
+(** ---- reference index: per name 0..3 the global references, per key 0..3 the index references (as sets) ---- *)
+Definition set_eqb (a : option (list (N * N))) (b : option (list (N * N))) : bool :=
+  match a, b with
+  | Some x, Some y => Nat.eqb (length x) (length y) && forallb (fun p => existsb (fun q => (fst p =? fst q) && (snd p =? snd q)) x) y
+  | None, None => true
+  | _, _ => false
+  end.
+Definition rcase := list (iop * (list (option (list (N * N))) * list (option (list (N * N))) * list N)).
+Fixpoint check_r (s : ridx) (c : rcase) : bool :=
+  match c with
+  | [] => true
+  | (o, (gobs, iobs, sizes)) :: r =>
+      let s' := match o with
+                | IAdd f facts => r_add f facts s
+                | IRemove f => r_remove f s
+                | IClear => r_clear s
+                end in
+      all2 (fun k x => set_eqb (rmap_get (r_glob s') k) x) (seq_from 0 (length gobs)) gobs
+      && all2 (fun k x => set_eqb (rmap_get (r_idx s') k) x) (seq_from 0 (length iobs)) iobs
+      && nl_eqb (r_sizes s') sizes && check_r s' r
+  end.
+
+Inductive case := CP (c : pcase) | CG (c : gcase) | CD (c : dcase) | CT (c : tcase) | CM (c : mcase) | CR (c : rcase).
 Definition check_case (k : case) : bool :=
   match k with
   | CP c => check_p p_init c
   | CG c => check_g g_init c
   | CD c => check_d d_init c
   | CT c => check_t t_init c
+  | CM c => check_m mb_init c
+  | CR c => check_r r_init c
   end.
